@@ -73,14 +73,31 @@ def judgeInjected (langOf : Nat → Nat) (injs : List Inj) (evs : List Ev) : Boo
 def lastStartAt (st : List (Nat × Nat × Bool)) (p : Nat) : Option Nat :=
   ((st.filter fun x => x.1 == p).getLast?).map (·.2.1)
 
+/-- All highlights started at position `p`. -/
+def startsAt (st : List (Nat × Nat × Bool)) (p : Nat) : List Nat :=
+  (st.filter fun x => x.1 == p).map (·.2.1)
+
 /-- Clause 4.  A resolved local reference `(refStart, refEnd, defStart, defEnd)` of the root layer
-must carry the definition's highlight (both are leaves of the root layer, so each one's highlight
-is the last `Start` at its first byte; a definition without a highlight imposes nothing). -/
+must carry the definition's highlight.  `Start` events are not attributable to nodes (a node that
+begins at the same byte — an enclosing call, an injected layer — also starts there, in an order that
+depends on when its match completes), so the judge requires that a highlight started at the
+reference's first byte is one of those started at the definition's first byte (a definition
+without any highlight imposes nothing).  Exact agreement is checked by the correspondence with the
+locals models. -/
 def judgeLocals (pairs : List (Nat × Nat × Nat × Nat)) (evs : List Ev) : Bool :=
   let st := starts evs
   pairs.all fun (rs, _, ds, _) =>
-    match lastStartAt st ds with
-    | none => true
-    | some h => lastStartAt st rs == some h
+    let dh := startsAt st ds
+    dh.isEmpty || (startsAt st rs).any fun h => dh.contains h
+
+/-- What a CANCELLED run may have emitted: a prefix of a well-formed stream — `Source` spans
+contiguous from `pos`, non-empty, never past `n`; `End` never without an open `Start`. -/
+def prefixOkFrom (n : Nat) : Nat → Nat → List Ev → Bool
+  | _, _, [] => true
+  | pos, depth, .source s e :: r => s == pos && s < e && e ≤ n && prefixOkFrom n e depth r
+  | pos, depth, .start _ :: r => prefixOkFrom n pos (depth + 1) r
+  | pos, depth, .stop :: r => depth > 0 && prefixOkFrom n pos (depth - 1) r
+
+def judgePrefix (n : Nat) (evs : List Ev) : Bool := prefixOkFrom n 0 0 evs
 
 end TsVerif.C17
